@@ -12,7 +12,18 @@ use vrp_verif_harness::*;
 
 fn gen_cases(rng: &mut Rng, tier: Tier) -> Vec<Value> {
     let n = if tier == Tier::Thorough { 40000 } else { 2000 };
-    (0..n).map(|_| gen_case(rng, "single")).collect()
+    (0..n)
+        .map(|i| {
+            let mut case = gen_case(rng, "single");
+            // two cases in three carry job values (maximize-value layer after the transport layer), read per job or per (actor, job)
+            if i % 3 != 0 {
+                let k = case["tour"].as_array().unwrap().len();
+                let tour: Vec<i64> = (0..k).map(|_| rng.range(0, 20)).collect();
+                case["values"] = json!({"tour": tour, "job": rng.range(0, 20), "mode": if i % 3 == 1 { "job" } else { "actor" }});
+            }
+            case
+        })
+        .collect()
 }
 
 fn ints(it: impl Iterator<Item = f64>) -> Vec<i64> {
